@@ -24,6 +24,7 @@ pub const MAX_SEEDS_THOROUGH: usize = 200;
 pub const ALPHABET: [u8; 5] = [0x00, 0x01, 0x7f, 0x80, 0xff];
 pub const CHUNK: usize = 3000;
 pub const ZST_CHUNK: usize = 6;
+pub const HANG_CONFIRMATIONS: u64 = 3;
 
 pub struct Case {
     pub origin: String,
@@ -330,6 +331,7 @@ pub fn run(args: &Args) -> i32 {
     units.sort_by_key(|u| (u.1, u.0));
     let evaluations = AtomicU64::new(0);
     let unconfirmed_hangs = AtomicU64::new(0);
+    let confirmed_hangs: Vec<AtomicU64> = entries.iter().map(|_| AtomicU64::new(0)).collect();
     let distinct = DistinctCounter::default();
     let classes: Mutex<BTreeMap<String, u64>> = Mutex::new(BTreeMap::new());
     let coll = Collector::default();
@@ -344,9 +346,14 @@ pub fn run(args: &Args) -> i32 {
             evaluations.fetch_add(1, Ordering::Relaxed);
             let c = &cs[idx];
             let mut o = o;
-            if matches!(&o, Outcome::Died { kind: "hang", .. }) {
-                // a hang counts only if it repeats alone in a fresh child
+            if matches!(&o, Outcome::Died { kind: "hang", .. }) && confirmed_hangs[ei].load(Ordering::SeqCst) < HANG_CONFIRMATIONS {
+                // a hang counts only if it repeats alone in a fresh child (the first
+                // HANG_CONFIRMATIONS hangs of a deserializer are repeated; after that many
+                // confirmed ones the time limit is trusted for this deserializer)
                 let o2 = run_single(&e.name, &hex(&c.bytes));
+                if matches!(&o2, Outcome::Died { kind: "hang", .. }) {
+                    confirmed_hangs[ei].fetch_add(1, Ordering::SeqCst);
+                }
                 if !matches!(&o2, Outcome::Died { kind: "hang", .. }) {
                     unconfirmed_hangs.fetch_add(1, Ordering::Relaxed);
                 }
